@@ -455,6 +455,12 @@ func (w *world) process(name string, pc procCfg, bo buildOpts, stepHook func(ste
 		w.runNo = 1
 		if bo.ViaREPL {
 			res.RunErr = w.replRun(proj, bo)
+			if bo.SecondRun {
+				// the REPL user calls run() again on the same loaded project
+				res.FirstRunErr = res.RunErr
+				w.runNo = 2
+				res.RunErr = w.replRun(proj, bo)
+			}
 			res.Ran = true
 			return
 		}
